@@ -117,8 +117,19 @@ class Check:
             from .engine import Obligation
             eng.obligations += [Obligation(oid=f"lemma/{lid}", kind="lemma", hyps=tuple(h), goal=g, target="lemma", probes=dict(pr))
                                 for lid, h, g, pr in remove_lemmas()]
+        if "list.concat/members" in getattr(eng, "engine_lemmas", set()):
+            from .lemmas import concat_lemmas
+            from .engine import Obligation
+            eng.obligations += [Obligation(oid=f"lemma/{lid}", kind="lemma", hyps=tuple(h), goal=g, target="lemma", probes=dict(pr))
+                                for lid, h, g, pr in concat_lemmas()]
         t_gen = time.time() - self.t0
         smt.discharge(eng.obligations, timeout_s=timeout_s)
+        # an obligation proved with the help of hints counts only if every hint it assumed is itself proved
+        by_id = {o.oid: o for o in eng.obligations}
+        for o in eng.obligations:
+            if o.result == "PROVED" and any(by_id.get(d) is not None and by_id[d].result != "PROVED" for d in o.depends):
+                o.result = "UNKNOWN"
+                o.note += " | a hint assumed for this obligation is not discharged"
         self.obligations += eng.obligations
         self.notes.append(f"phase times: VC generation {t_gen:.1f}s, solving {time.time() - self.t0 - t_gen:.1f}s")
         return eng
